@@ -949,6 +949,10 @@ func (c *callable) Value(env *env) reflect.Value {
 					}
 				}
 				err = &fatalError{msg: msg}
+			} else if env.ctx != nil && err == env.ctx.Err() {
+				// The context has been canceled while the function was
+				// running: stop the execution with the context's error.
+				err = stopError{err}
 			}
 			panic(err)
 		}
